@@ -464,7 +464,9 @@ class Interp:
                 return BoolV(op["int"] != 0)
             return Aff(op["int"], ty=ty)
         if "fn" in op:
-            return FnV("fn", op["fn"])
+            f = FnV("fn", op["fn"])
+            f.callee = op.get("fn_callee")
+            return f
         if "closure" in op:
             return FnV("closure", op["closure"])
         if "promoted" in op:
@@ -1001,7 +1003,13 @@ class Interp:
         args = [self.operand(st, fr, a) for a in t["args"]]
         if "indirect" in c:
             f = self.resolve(st, self.operand(st, fr, c["indirect"]))
+            self._cur_frame = fr
             return self.call_value(st, f, args, depth, t)
+        return self._call_callee(st, fr, c, args, t, depth)
+
+    def _call_callee(self, st, fr, c, args, t, depth):
+        """dispatch a call whose callee is known statically (a call terminator, or a function item passed as a value)"""
+        self._cur_frame = fr
         name = M.callee_name(c)
         tdef = M.callee_trait_def(c)
         rdef = c.get("resolved") or c["def"]
@@ -1024,6 +1032,7 @@ class Interp:
                 return list(self._call_body(st, dyn, args, depth + 1))
         for sp, fn in self.fn_stubs:
             if sp.search(rdef) or sp.search(name):
+                self._cur_info = info
                 return [(st, "return", fn(self, st, args))]
         for sp in self.stubs:
             if sp.search(rdef) or sp.search(name):
@@ -1095,12 +1104,24 @@ class Interp:
             for sp, fn in self.fn_stubs:
                 if sp.search(f.defn):
                     return [(st, "return", fn(self, st, list(args)))]
+            cal = getattr(f, "callee", None)
+            fr0 = getattr(self, "_cur_frame", None)
+            if cal and fr0 is not None and f.kind == "fn" and (cal.get("trait") or cal.get("resolved") or not cal.get("local")) and f.defn not in self.facts.adts:
+                # a function item used as a value (`.map(Footer::from)`, `.map_err(PasetoError::from)`): the same dispatch as a direct call
+                parent = f.defn.rpartition("::")[0]
+                if not (parent in self.VARIANTS or parent in self.facts.adts):
+                    tt = t if t is not None else {"ln": 0, "args": [], "callee": cal}
+                    return self._call_callee(st, fr0, cal, list(args), dict(tt, callee=cal), depth)
             body = self.facts.bodies.get(f.defn)
             if body is not None:
                 if f.kind == "closure":
                     env = Struct("(closure)", None, {str(i): v for i, v in enumerate(f.captures)})
-                    c = st.new_cell(env)
-                    return list(self._call_body(st, body, [Ptr(c, ())] + list(args), depth + 1))
+                    # Fn / FnMut bodies take `&closure` / `&mut closure`, FnOnce bodies the closure by value
+                    lt = body["locals"][1]["ty"] if len(body["locals"]) > 1 else "&"
+                    if lt.startswith("&"):
+                        c = st.new_cell(env)
+                        return list(self._call_body(st, body, [Ptr(c, ())] + list(args), depth + 1))
+                    return list(self._call_body(st, body, [env] + list(args), depth + 1))
                 return list(self._call_body(st, body, list(args), depth + 1))
         if isinstance(f, FnV) and f.kind == "fn":
             # tuple-struct / enum-variant constructors used as functions (e.g. `.map(Some)`, `.map(Self)`)
